@@ -139,7 +139,8 @@ static void c_event(int kind, struct creq *q)
 static void c_done(struct evhttp_request *req, void *arg)
 {
 	struct creq *q = arg;
-	if (q->cancelled || q->dropped) q->done_after_cancel++;
+	/* documented for evhttp_cancel_request only: "the callback associated with this request is not executed" */
+	if (q->cancelled) q->done_after_cancel++;
 	q->done++;
 	q->done_ok = req != NULL && req->response_code != 0;
 	c_cb_req_nonnull = req != NULL;
@@ -242,10 +243,14 @@ static int serve(struct peer *p, const struct script *sc, int transport)
 
 static void run_client(void)
 {
-	int transport = mc_choose(NTRANSPORT, 0, "transport");
+	int tmask = mc_param("transports", 7), smask = mc_param("scripts", 15);
+	int tl[NTRANSPORT], nt = 0, sl[NSCRIPTS], ns = 0;
+	for (int i = 0; i < NTRANSPORT; i++) if (tmask >> i & 1) tl[nt++] = i;
+	for (int i = 0; i < NSCRIPTS; i++) if (smask >> i & 1) sl[ns++] = i;
+	int transport = tl[mc_choose(nt, 0, "transport")];
 	int cfg = mc_choose(4, 0, "nreq-retries");
 	int nreq = 1 + (cfg & 1), retries = cfg >> 1;
-	int si = mc_choose(NSCRIPTS, 0, "script");
+	int si = sl[mc_choose(ns, 0, "script")];
 	int plan = mc_choose(1 + (NACTIONS - 1) * mc_param("maxat", 3), 0, "user-action");
 	const struct script *sc = &scripts[si];
 	int listener = -1, lport = 0, sv[2] = { -1, -1 };
@@ -335,7 +340,7 @@ static void run_client(void)
 		MC_COUNT("oracle_completion_count");
 		if (q->done > 1) mc_fail("C27/client/completion-twice", "request %d: completion callback ran %d times", i + 1, q->done);
 		if (q->err > 1) mc_fail("C27/client/error-cb-twice", "request %d: error callback ran %d times", i + 1, q->err);
-		if (q->done_after_cancel) mc_fail("C27/client/completion-after-cancel", "request %d: completion callback ran after the request was cancelled / freed with its connection", i + 1);
+		if (q->done_after_cancel) mc_fail("C27/client/completion-after-cancel", "request %d: completion callback ran after evhttp_cancel_request", i + 1);
 		if (req_live(q) && !c_abandoned && !c_evcon_freed) {
 			char key[160];
 			/* what the connection looks like now is part of the key: distinct ways of getting stuck stay distinct */
@@ -438,7 +443,7 @@ static void run_server(void)
 {
 	static const char reqbytes[] = "GET /x HTTP/1.1\r\nHost: h\r\n\r\n";
 	int maxc = mc_choose(3, 0, "max-connections");
-	int nconn = 1 + mc_choose(MAXCONN, 0, "connections");
+	int nconn = 1 + mc_choose(mc_param("maxconn", MAXCONN), 0, "connections");
 	int hplan = mc_choose(NHPLANS, 0, "handler-plan");
 	int second = mc_choose(2, 0, "second-request-on-first-connection");
 	struct sockaddr_un sa; memset(&sa, 0, sizeof sa); sa.sun_family = AF_UNIX;
@@ -472,7 +477,7 @@ static void run_server(void)
 			switch (f) {
 			case SF_PAUSE: hc_run(); break;
 			case SF_EOF: shutdown(s->fd, SHUT_WR); s->eof = 1; stop = 1; if (k == n) { s->sent_request = 1; requests_sent++; } break;
-			case SF_CLOSE: close(s->fd); s->fd = -1; s->closed = 1; stop = 1; break;
+			case SF_CLOSE: close(s->fd); s->fd = -1; s->closed = 1; stop = 1; if (k == n) requests_sent++; break;
 			}
 		}
 		if (!stop) {
